@@ -192,11 +192,62 @@ def run_case(case):
             'late': late}
 
 
+def holiday_probe() -> list:
+    """holiday / work-day filters with their OWN holiday object while other holidays are set up globally: the filter object,
+    its copies and everything derived from it through the builder answer alike (C15); the holiday calendar itself is
+    an oracle (package `holidays`), only agreement between the objects is judged"""
+    bad = []
+    try:
+        from holidays import country_holidays
+        import eascheduler
+        from eascheduler.builder import FilterBuilder as F, TriggerBuilder as T
+        from eascheduler.builder.triggers import _get_producer
+        from eascheduler.producers import prod_filter_holiday as pfh
+        from whenever import SystemDateTime
+    except Exception as e:  # noqa: BLE001
+        return [f'holiday probe could not start: {type(e).__name__}: {e}']
+    old = pfh.HOLIDAYS
+    try:
+        pfh.HOLIDAYS = None
+        eascheduler.setup_holidays('DE', 'BE')
+        own = country_holidays('US')
+        noon = T.time('12:00:00', clock_forward='skip', clock_backward='earlier')
+        for name, mk in (('holidays', F.holidays), ('work_days', F.work_days), ('not_work_days', F.not_work_days)):
+            f = mk(own)
+            direct = noon.only_on(f)
+            variants = {
+                'only_on(f)': direct._producer,
+                'copy of the producer': _get_producer(direct),
+                'only_on(all(f))': _get_producer(noon.only_on(F.all(f))),
+                'only_on(not_(not_(f)))': _get_producer(noon.only_on(F.not_(F.not_(f)))),
+                'only_on(f).offset(0)': _get_producer(direct.offset(0)),
+                'group(only_on(f))': _get_producer(T.group(direct)),
+            }
+            for ref in (SystemDateTime(2024, 6, 28).instant(), SystemDateTime(2024, 9, 30).instant(),
+                        SystemDateTime(2024, 11, 25).instant(), SystemDateTime(2025, 1, 17).instant()):
+                base = _get_producer(noon)
+                base._filter = f._filter            # the filter object itself, not a copy of it
+                a = base.get_next(ref)
+                for what, p in variants.items():
+                    b = p.get_next(ref)
+                    if a != b:
+                        bad.append(f'{name}(own holiday object): the trigger answers {a.to_system_tz()} after {ref.to_system_tz()}, '
+                                   f'{what} answers {b.to_system_tz()}')
+    except Exception as e:  # noqa: BLE001
+        bad.append(f'holiday probe raised {type(e).__name__}: {e}')
+    finally:
+        pfh.HOLIDAYS = old
+    return bad[:4]
+
+
 def main() -> int:
     resource.setrlimit(resource.RLIMIT_AS, (6 << 30, 6 << 30))
     time.tzset()
     cases = json.load(open(sys.argv[1]))
-    json.dump([run_case(c) for c in cases], open(sys.argv[2], 'w'))
+    out = [run_case(c) for c in cases]
+    if out and cases and cases[0].get('with_holiday_probe'):
+        out[0]['holiday_probe'] = holiday_probe()
+    json.dump(out, open(sys.argv[2], 'w'))
     return 0
 
 
